@@ -261,6 +261,8 @@ def main():
 
     for l in known_lines:
         print(l)
+    seen_v = set()
+    violations = [v for v in violations if not (v[0] in seen_v or seen_v.add(v[0]))]
     for path, suffix in violations:
         print("VIOLATION property=%s replay=%s%s" % (pid, path, suffix))
     if not violations:
